@@ -18,6 +18,14 @@ C04_SIGS |= MULTI_SIGS
 C12_SIGS |= MULTI_SIGS
 
 
+# long-running speakers driven through controller.SetBalancer with status ORDER edits, configuration rendered by the
+# real config.For in two listing orders (group l2lock: harness/speaker/zz_verif_l2multi_test.go, TestVerifL2Multi)
+L2M_C04 = {"l2m-not-exactly-one", "l2m-announcer-without-eligible", "l2m-winner-not-eligible"}
+L2M_C12 = {"l2m-depends-on-history-or-listing-order", "l2m-not-exactly-one"}
+C04_SIGS |= L2M_C04
+C12_SIGS |= L2M_C12
+
+
 def run(ctx, prop, sigs):
     propfile = "Properties/%s.v" % prop
     ok = ctx.coq_build([propfile] + COQ_FILES)
@@ -64,6 +72,26 @@ def run(ctx, prop, sigs):
             state["stats"][r["k"]] = state["stats"].get(r["k"], 0) + r["v"]
     if not ok3 and not any("does not build" in c for c in ctx.corr_broken):
         ctx.corr_broken.append("harness TestVerifSpkMulti failed: " + log3[-1200:])
+    ov2 = {"internal/layer2/zz_verif.go": os.path.join(os.path.dirname(os.path.dirname(os.path.abspath(__file__))),
+                                                       "harness", "internal", "layer2", "zz_verif.go")}
+    recs, ok4, log4 = ctx.go_harness("speaker", ["zz_verif_l2_test.go", "zz_verif_l2multi_test.go"], "TestVerifL2Multi$",
+                                     n=25 if ctx.tier == "quick" else 400, tag="l2m", extra_overlay=ov2)
+    l2m_cases = []
+    for r in recs:
+        if r.get("t") == "fail" and r.get("sig") in sigs:
+            ctx.oracle_fail(r["sig"], r.get("what", ""), r.get("replay"))
+        elif r.get("t") == "stat":
+            state["stats"][r["k"]] = state["stats"].get(r["k"], 0) + r["v"]
+        elif r.get("t") == "case":
+            l2m_cases.append(r)
+    if not ok4 and not any("does not build" in c for c in ctx.corr_broken):
+        ctx.corr_broken.append("harness TestVerifL2Multi failed: " + log4[-1200:])
+    if l2m_cases and ok:
+        mm = ctx.coq_cases("Run_Elect", "ecase", [c["coq"] for c in l2m_cases], shard=200)
+        byid2 = {c["id"]: c for c in l2m_cases}
+        for m in mm[:3]:
+            ctx.corr_broken.append("the speakers announcing after %r differ from Elect.decide on the CURRENT status order (long-running speakers through controller.SetBalancer): %s" %
+                                   (byid2.get(m, {}).get("in", {}).get("after"), json.dumps(byid2.get(m, {}).get("in"))[:600]))
     state["cases"] = cases
     mism = []
     if cases and ok:
